@@ -1108,10 +1108,14 @@ func (env *Zlisp) LexicalLookupSymbol(sym *SexpSymbol, setVal *Sexp) (Sexp, erro
 	}
 
 	// check the parent function lexical captured scopes, if parent available.
-	if env.curfunc.parent != nil {
+	// While a builtin written in Go runs (it resolves dot paths such as h.a
+	// on behalf of the function that called it), the captured scopes that
+	// count are those of that calling function, not the builtin's own (none).
+	curfunc := env.lexicalFunc()
+	if curfunc.parent != nil {
 		//P("checking non-nil parent...")
 		//exp, err, whichScope := env.curfunc.parent.ClosingLookupSymbol(sym, setVal)
-		exp, err, whichScope := env.curfunc.LookupSymbolInParentChainOfClosures(sym, setVal, env)
+		exp, err, whichScope := curfunc.LookupSymbolInParentChainOfClosures(sym, setVal, env)
 		switch err {
 		case nil:
 			//P("LookupSymbolUntilFunction('%s') found in curfunc.parent.ClosingLookupSymbol() scope '%s'\n", sym.name, whichScope.Name)
@@ -1124,7 +1128,7 @@ func (env *Zlisp) LexicalLookupSymbol(sym *SexpSymbol, setVal *Sexp) (Sexp, erro
 
 		//fmt.Printf(" *** env.curfunc has closure of: %s\n", ClosureToString(env.curfunc, env))
 		//exp, err, scope = env.curfunc.ClosingLookupSymbol(sym, setVal)
-		exp, err, scope = env.curfunc.ClosingLookupSymbolUntilFunc(sym, setVal, 1, false)
+		exp, err, scope = curfunc.ClosingLookupSymbolUntilFunc(sym, setVal, 1, false)
 		switch err {
 		case nil:
 			//P("LexicalLookupSymbol('%s') found in env.curfunc.ClosingLookupSymbolUnfilFunc(1, false) in scope '%s'\n", sym.name, scope.Name)
@@ -1144,6 +1148,26 @@ func (env *Zlisp) LexicalLookupSymbol(sym *SexpSymbol, setVal *Sexp) (Sexp, erro
 	}
 
 	return SexpNull, fmt.Errorf("symbol `%s` not found", sym.name), nil
+}
+
+// lexicalFunc returns the function whose captured scopes a name
+// lookup consults: the running function, or, while a builtin written
+// in Go runs, the script function that called it.
+func (env *Zlisp) lexicalFunc() *SexpFunction {
+	f := env.curfunc
+	if f == nil || !f.user {
+		return f
+	}
+	for i := env.addrstack.tos; i >= 0; i-- {
+		addr, isAddr := env.addrstack.elements[i].(Address)
+		if !isAddr || addr.function == nil {
+			break
+		}
+		if !addr.function.user {
+			return addr.function
+		}
+	}
+	return f
 }
 
 func (env *Zlisp) LexicalBindSymbol(sym *SexpSymbol, expr Sexp) error {
